@@ -206,6 +206,49 @@ def scenarios(pid, tier, seed):
                     sc2 = dyn_gen.add_between(sc, rng)
                     if dyn_mon.admissible({"tree": dyn_gen.first_run_tree(sc2)}):
                         out.append(("rerun-edited", sc2))
+    if pid in ("C01", "C02", "C12", "C14"):
+        # the same objects run again after a run that was CUT SHORT (a critical job raised, or the timeout expired, while
+        # some jobs had seen only part of their requirements finish), with other durations and nobody raising the second
+        # time: nothing of the aborted run may survive into the judged one
+        def abort_then_rerun(tree):
+            sc = dict(tree=copy.deepcopy(tree))
+            for n, _ in dyn_gen.walk(sc["tree"]):
+                if n["kind"] == "job":
+                    n["coro"] = False
+            if not dyn_mon.admissible(sc):
+                return None
+            jobs = [k for k in sc["tree"]["children"] if k["kind"] == "job" and not k["forever"] and k["d"] is not None]
+            if len(jobs) < 2:
+                return None
+            attrs = {}
+            if rng.random() < 0.75:
+                x = rng.choice(jobs)
+                x["exc"] = False
+                attrs[x["name"]] = dict(exc=True, crit=True, d=rng.choice([0, 1, 2]))
+                if not x["crit"]:
+                    x["crit"] = rng.random() < 0.5
+            else:
+                attrs[sc["tree"]["name"]] = dict(T=rng.choice([1, 2]))
+            for n, _ in dyn_gen.walk(sc["tree"]):
+                if n["kind"] == "job" and n["name"] not in attrs and n["d"] is not None and rng.random() < 0.5:
+                    attrs[n["name"]] = dict(d=rng.choice([0, 1, 2, 3, 4]))
+            sc["rerun"] = True
+            sc["between"] = dict(attrs=attrs, edges=[], removed=[], added_jobs=[], first_root=None, inspect=[], shutdown=False)
+            return sc
+        J_, S_ = dyn_gen.J, dyn_gen.S
+        for i in range(max(30, n_r // 12)):
+            da, db = rng.choice([(1, 3), (2, 4), (1, 2)])
+            kids = [J_("a", db, h=1), J_("b", da, h=2), J_("c", 0, h=3, req=["a"]), J_("j", 1, h=4, req=["a", "b"]),
+                    J_("z", 1, h=5, req=["j"])]
+            rng.shuffle(kids)
+            sc = abort_then_rerun(S_("top", kids, pure=rng.random() < 0.5, w=rng.choice([None, None, 2])))
+            if sc:
+                sc["between"]["attrs"] = {"a": dict(d=da), "b": dict(d=db), "c": dict(exc=True, crit=True)}
+                out.append(("rerun-after-abort", sc))
+        for base in dyn_gen.targeted(pid, rng, n_t // 6) + [dyn_gen.gen_tree(rng, depth=rng.choice([1, 2])) for _ in range(n_r // 8)]:
+            sc = abort_then_rerun(base["tree"])
+            if sc:
+                out.append(("rerun-after-abort", sc))
     if pid in ("C01", "C02", "C03", "C12"):
         # graphs inspected (exit_jobs, list, dot_format, closures, check_cycles), then edited, then run
         for sc in dyn_gen.targeted(pid, rng, n_t // 6) + [dyn_gen.gen_tree(rng, depth=rng.choice([1, 2])) for _ in range(n_r // 8)]:
